@@ -3,56 +3,6 @@
    shapes the pinned tree gets wrong. *)
 From Verif Require Import Lib.Base Model.Cover Proofs.CoverBase Proofs.CoverStruct Proofs.CoverSim.
 
-(* ---- guard: the program shapes on which annotation changes which code is generated ---- *)
-Section Guard.
-Context {E : Type}.
-
-(* an action body that is present and not empty is not made of empty blocks only
-   ({ { } }: compiles to no code = "print $0" until a counter is added).  The empty body {}
-   is fine: it is annotated to itself and compiled to a Nop in both runs. *)
-Definition body_guard (b : option (list (cstmt E))) : bool :=
-  match b with
-  | None => true
-  | Some [] => true
-  | Some l => negb (forallb codeless_stmt l)
-  end.
-(* same for END blocks: "END { { } }" compiles to nothing, and with no rules the input is then
-   not read at all *)
-Definition end_guard (l : list (cstmt E)) : bool :=
-  match l with [] => true | _ => negb (forallb codeless_stmt l) end.
-Definition guard_ok (P : program E) : bool :=
-  forallb (fun a => body_guard (a_body a)) (p_actions P) && forallb end_guard (p_end P).
-
-Lemma codeless_erase_list (l : list (cstmt E)) :
-  Forall (fun s => codeless_stmt s = true -> codeless_stmt (erase s) = true) l ->
-  forallb codeless_stmt l = true -> forallb codeless_stmt (erase_list erase l) = true.
-Proof.
-  induction 1 as [|s t Hs _ IH]; [reflexivity|].
-  cbn [forallb]. intros H. apply andb_prop in H as [H1 H2].
-  destruct s; try discriminate H1. cbn [erase_list forallb]. rewrite (Hs H1), (IH H2). reflexivity.
-Qed.
-
-Lemma codeless_erase (s : cstmt E) : codeless_stmt s = true -> codeless_stmt (erase s) = true.
-Proof.
-  induction s using cstmt_ind'; cbn [codeless_stmt erase]; try discriminate.
-  apply codeless_erase_list. exact H.
-Qed.
-
-Lemma codeless_erase_stmts (l : list (cstmt E)) :
-  forallb codeless_stmt l = true -> forallb codeless_stmt (erase_stmts l) = true.
-Proof.
-  apply codeless_erase_list. apply Forall_forall. intros s _. apply codeless_erase.
-Qed.
-
-Lemma not_codeless_annotated (l' l : list (cstmt E)) :
-  erase_stmts l' = l -> forallb codeless_stmt l = false -> forallb codeless_stmt l' = false.
-Proof.
-  intros He Hl. destruct (forallb codeless_stmt l') eqn:H; [|reflexivity].
-  apply codeless_erase_stmts in H. rewrite He in H. congruence.
-Qed.
-
-End Guard.
-
 Section Bridge.
 Context {E : Type}.
 Variable files : ftable.
@@ -72,44 +22,29 @@ Qed.
 
 Lemma actions_bridge (la' la : list (action E)) :
   Forall2 (action_rel mode) la' la ->
-  forallb (fun a => body_guard (a_body a)) la = true ->
   (forall x, In x (concat (map (fun a => tagged_body (a_body a)) la')) -> okt okp x) ->
   Forall2 (arel E mode okp) la' la.
 Proof.
-  induction 1 as [|a' a t' t [Hp Hb] _ IH]; intros Hg Hok; [constructor|].
-  cbn [forallb] in Hg. apply andb_prop in Hg as [Hg1 Hg2]. cbn [map concat] in Hok. constructor.
+  induction 1 as [|a' a t' t [Hp Hb] _ IH]; intros Hok; [constructor|].
+  cbn [map concat] in Hok. constructor.
   - split; [exact Hp|]. unfold body_rel in Hb. unfold body_prel.
-    destruct (a_body a) as [l|] eqn:Ea, (a_body a') as [l'|] eqn:Ea'; cbn [body_guard] in Hg1; try contradiction.
-    + destruct Hb as (Hemp & He & Hs). split; [|split].
-      * split; [exact He|]. split; [exact Hs|]. apply Forall_forall. intros x Hx. apply Hok.
-        apply in_or_app. left. exact Hx.
-      * destruct l' as [|s' l0']; [reflexivity|]. cbn [action_prints].
-        destruct l as [|s l0]; [destruct Hemp as [Hemp _]; discriminate (Hemp eq_refl)|].
-        apply negb_true_iff in Hg1. exact (not_codeless_annotated (s' :: l0') (s :: l0) He Hg1).
-      * destruct l as [|s l0]; [reflexivity|]. apply negb_true_iff in Hg1. exact Hg1.
-    + exact I.
-  - apply IH; [exact Hg2|]. intros x Hx. apply Hok. apply in_or_app. right. exact Hx.
+    destruct (a_body a) as [l|] eqn:Ea, (a_body a') as [l'|] eqn:Ea'; try contradiction; [|exact I].
+    destruct Hb as (_ & He & Hs). split; [|split; reflexivity].
+    split; [exact He|]. split; [exact Hs|]. apply Forall_forall. intros x Hx. apply Hok.
+    apply in_or_app. left. exact Hx.
+  - apply IH. intros x Hx. apply Hok. apply in_or_app. right. exact Hx.
 Qed.
 
 Lemma end_empty_bridge (ls' ls : list (list (cstmt E))) :
-  Forall2 (list_rel mode) ls' ls -> forallb end_guard ls = true -> end_is_empty ls' = end_is_empty ls.
-Proof.
-  induction 1 as [|l' l t' t (R1 & _ & R3 & R4) _ IH]; intros Hg; [reflexivity|].
-  cbn [forallb] in Hg. apply andb_prop in Hg as [Hg1 Hg2]. unfold end_is_empty in *. cbn [forallb].
-  rewrite (IH Hg2). f_equal.
-  destruct l as [|s l0].
-  - rewrite (R4 eq_refl). reflexivity.
-  - cbn [end_guard] in Hg1. apply negb_true_iff in Hg1.
-    destruct l' as [|s' l0']; [discriminate (R3 eq_refl)|].
-    rewrite (not_codeless_annotated (s' :: l0') (s :: l0) R1 Hg1), Hg1. reflexivity.
-Qed.
+  Forall2 (list_rel mode) ls' ls -> end_is_empty ls' = end_is_empty ls.
+Proof. destruct 1; reflexivity. Qed.
 
 Theorem bridge (P A : program E) (B : list block) :
-  ann_ok files mode P A B -> guard_ok P = true ->
+  ann_ok files mode P A B ->
   (forall x, In x (tagged_prog A) -> okt okp x) ->
   prel E mode okp A P /\ Forall2 (lrel E mode okp) (p_funcs A) (p_funcs P).
 Proof.
-  intros [Hb Ha He Hf _ _ _] Hg Hok. unfold guard_ok in Hg. apply andb_prop in Hg as [Hg1 Hg2].
+  intros [Hb Ha He Hf _ _ _] Hok.
   unfold tagged_prog in Hok.
   assert (Hok1 : forall x, In x (concat (map tagged (p_begin A))) -> okt okp x)
     by (intros x Hx; apply Hok; apply in_or_app; left; exact Hx).
@@ -201,16 +136,16 @@ Lemma annotated_run (XA XB : Type) (bumpA : cmode -> Z -> XA -> XA) (bumpB : cmo
   (mode : cmode) (J : XA -> list pos -> Prop) (JP : Z -> XA -> list pos -> Prop) (P : program E) :
   let A := fst (annotate files mode P) in
   let okp := fun t p => In (t, p) (tagged_prog A) in
-  nocov_prog P = true -> guard_ok P = true ->
+  nocov_prog P = true ->
   (forall i x tr, J x tr -> JP i (bumpA mode i x) tr) ->
   (forall i p x tr, JP i x tr -> okp (Some i) p -> J x (p :: tr)) ->
   (forall p x tr, J x tr -> okp None p -> J x (p :: tr)) ->
   forall n u x xb tr, J x tr ->
   rrel U V XA XB J JP (run XA bumpA n A (mkst U XA u x tr)) (run XB bumpB n P (mkst U XB u xb tr)).
 Proof.
-  intros A okp Hn Hg Hc Hh Hp n u x xb tr HJ.
+  intros A okp Hn Hc Hh Hp n u x xb tr HJ.
   pose proof (annotate_ok files mode P Hn) as Hok. fold A in Hok.
-  destruct (bridge files mode okp P A _ Hok Hg) as [Hprel Hfun].
+  destruct (bridge files mode okp P A _ Hok) as [Hprel Hfun].
   { intros [t p] Hx. exact Hx. }
   unfold run. eapply exec_prog_sim; try eassumption.
   split; [reflexivity|]. split; [reflexivity|exact HJ].
@@ -219,15 +154,15 @@ Qed.
 (* ---- transparency ---- *)
 Theorem transparent (XA XB : Type) (bumpA : cmode -> Z -> XA -> XA) (bumpB : cmode -> Z -> XB -> XB)
   (mode : cmode) (P : program E) :
-  nocov_prog P = true -> guard_ok P = true ->
+  nocov_prog P = true ->
   forall n u x xb tr,
   let rA := run XA bumpA n (fst (annotate files mode P)) (mkst U XA u x tr) in
   let rP := run XB bumpB n P (mkst U XB u xb tr) in
   snd rA = snd rP
   /\ (snd rA <> OFuel V -> s_u _ _ (fst rA) = s_u _ _ (fst rP) /\ s_tr _ _ (fst rA) = s_tr _ _ (fst rP)).
 Proof.
-  intros Hn Hg n u x xb tr.
-  pose proof (annotated_run XA XB bumpA bumpB mode (fun _ _ => True) (fun _ _ _ => True) P Hn Hg
+  intros Hn n u x xb tr.
+  pose proof (annotated_run XA XB bumpA bumpB mode (fun _ _ => True) (fun _ _ _ => True) P Hn
                 (fun _ _ _ _ => Logic.I) (fun _ _ _ _ _ _ => Logic.I) (fun _ _ _ _ _ => Logic.I) n u x xb tr Logic.I) as [H1 H2].
   cbn zeta. split; [exact H1|]. intros Hne. destruct (H2 Hne) as (Hu & Ht & _). split; assumption.
 Qed.
@@ -263,7 +198,7 @@ Proof.
 Qed.
 
 Theorem count_exact (XB : Type) (bumpB : cmode -> Z -> XB -> XB) (P : program E) :
-  nocov_prog P = true -> guard_ok P = true -> NoDup (map snd (tagged_prog P)) ->
+  nocov_prog P = true -> NoDup (map snd (tagged_prog P)) ->
   let A := fst (annotate files MCount P) in
   let B := snd (annotate files MCount P) in
   forall n u xb,
@@ -274,14 +209,14 @@ Theorem count_exact (XB : Type) (bumpB : cmode -> Z -> XB -> XB) (P : program E)
   exists p, In (Some i, p) (tagged_prog A) /\ link files b p
             /\ cover_get (s_x _ _ (fst rA)) i = began p (s_tr _ _ (fst rP)).
 Proof.
-  intros Hn Hg Hnd A B n u xb rA rP Hfuel i b Hi Hb.
+  intros Hn Hnd A B n u xb rA rP Hfuel i b Hi Hb.
   destruct (tags_facts MCount P Hn Hnd) as (HndT & HndM & Hblocks & _). fold A B in HndT, HndM, Hblocks.
   set (T := tagged_prog A) in *.
   set (J := fun (x : cover_array) (tr : list pos) => forall i p, In (Some i, p) T -> cover_get x i = began p tr).
   set (JP := fun (k : Z) (x : cover_array) (tr : list pos) =>
                forall i p, In (Some i, p) T -> cover_get x i = began p tr + (if i =? k then 1 else 0)).
   assert (Hsim : rrel U V cover_array XB J JP rA rP).
-  { apply (annotated_run cover_array XB cover_bump bumpB MCount J JP P Hn Hg).
+  { apply (annotated_run cover_array XB cover_bump bumpB MCount J JP P Hn).
     - intros k x tr HJ j p Hin. rewrite cover_get_bump. destruct (j =? k) eqn:Hjk.
       + apply Z.eqb_eq in Hjk. subst j. rewrite (HJ k p Hin). lia.
       + rewrite (HJ j p Hin). lia.
@@ -302,7 +237,7 @@ Proof.
 Qed.
 
 Theorem set_exact (XB : Type) (bumpB : cmode -> Z -> XB -> XB) (P : program E) :
-  nocov_prog P = true -> guard_ok P = true -> NoDup (map snd (tagged_prog P)) ->
+  nocov_prog P = true -> NoDup (map snd (tagged_prog P)) ->
   let A := fst (annotate files MSet P) in
   let B := snd (annotate files MSet P) in
   forall n u xb,
@@ -313,7 +248,7 @@ Theorem set_exact (XB : Type) (bumpB : cmode -> Z -> XB -> XB) (P : program E) :
   exists p, In (Some i, p) (tagged_prog A) /\ link files b p
             /\ cover_get (s_x _ _ (fst rA)) i = (if 0 <? began p (s_tr _ _ (fst rP)) then 1 else 0).
 Proof.
-  intros Hn Hg Hnd A B n u xb rA rP Hfuel i b Hi Hb.
+  intros Hn Hnd A B n u xb rA rP Hfuel i b Hi Hb.
   destruct (tags_facts MSet P Hn Hnd) as (HndT & HndM & Hblocks & _). fold A B in HndT, HndM, Hblocks.
   set (T := tagged_prog A) in *.
   set (J := fun (x : cover_array) (tr : list pos) =>
@@ -321,7 +256,7 @@ Proof.
   set (JP := fun (k : Z) (x : cover_array) (tr : list pos) =>
                forall i p, In (Some i, p) T -> cover_get x i = if i =? k then 1 else (if 0 <? began p tr then 1 else 0)).
   assert (Hsim : rrel U V cover_array XB J JP rA rP).
-  { apply (annotated_run cover_array XB cover_bump bumpB MSet J JP P Hn Hg).
+  { apply (annotated_run cover_array XB cover_bump bumpB MSet J JP P Hn).
     - intros k x tr HJ j p Hin. rewrite cover_get_bump. destruct (j =? k); [reflexivity|apply HJ; exact Hin].
     - intros k p x tr HJP Hk j q Hin. fold A T in Hk. rewrite (HJP j q Hin). destruct (j =? k) eqn:Hjk.
       + apply Z.eqb_eq in Hjk. subst j.
@@ -342,7 +277,7 @@ Qed.
 
 End Main.
 
-(* ---- the unguarded statement and its refutation on the faithful model ---- *)
+(* ---- the full statement (no guard on the shape of action bodies or END blocks) ---- *)
 Definition transparent_full_statement : Prop :=
   forall (E U K V I : Type) (ev_start : E -> U -> estep U K V) (ev_resume : K -> U -> V -> estep U K V)
     (truthy : V -> bool) (nil_v : V) (forin_init : E -> U -> I) (forin_next : E -> I -> U -> option (I * U))
@@ -357,6 +292,11 @@ Definition transparent_full_statement : Prop :=
               XB bumpB n P (mkst U XB u xb tr) in
   snd rA = snd rP
   /\ (snd rA <> OFuel V -> s_u _ _ (fst rA) = s_u _ _ (fst rP) /\ s_tr _ _ (fst rA) = s_tr _ _ (fst rP)).
+
+Theorem transparent_full : transparent_full_statement.
+Proof.
+  unfold transparent_full_statement. intros. apply transparent. assumption.
+Qed.
 
 (* a toy interpreter: the state is (records left to read, lines printed so far) *)
 Module Toy.
@@ -374,7 +314,9 @@ Definition prog_empty_action : program unit := mkprogram [] [mkaction [] (Some [
 (* { { } } : an action whose body is one empty block *)
 Definition prog_block_action : program unit :=
   mkprogram [] [mkaction [] (Some [SBlock (mkpos 1 3) (mkpos 1 7) []])] [] [].
-(* END { { } } with no rules and an input that cannot be read is not modelled here: the toy has no failing input *)
+(* END { { } } with no rules: the input is read (records left goes from 2 to 0) *)
+Definition prog_end_blocks : program unit :=
+  mkprogram [] [] [[SBlock (mkpos 1 7) (mkpos 1 11) []]] [].
 End Toy.
 
 (* formerly F-C18-1 (fixed): {} prints nothing plainly and nothing when annotated (the body
@@ -386,26 +328,13 @@ Lemma toy_empty_action :
   /\ p_actions (fst (annotate [] MSet Toy.prog_empty_action)) = [mkaction [] (Some [])].
 Proof. vm_compute. repeat split. Qed.
 
-(* F-C18-3: plainly { { } } compiles to no code and every record is printed; annotated it prints nothing *)
+(* formerly F-C18-3 (fixed in the compiler): { { } } gets a Nop and prints nothing, plainly and annotated *)
 Lemma toy_block_action :
-  s_u _ _ (fst (Toy.run_toy unit (fun _ _ x => x) Toy.prog_block_action tt)) = (0%nat, 2%nat) /\
+  s_u _ _ (fst (Toy.run_toy unit (fun _ _ x => x) Toy.prog_block_action tt)) = (0%nat, 0%nat) /\
   s_u _ _ (fst (Toy.run_toy cover_array cover_bump (fst (annotate [] MSet Toy.prog_block_action)) cover_empty)) = (0%nat, 0%nat).
 Proof. vm_compute. repeat split. Qed.
 
-Theorem transparent_refuted_block_action : ~ transparent_full_statement.
-Proof.
-  intros H.
-  specialize (H unit Toy.U unit unit unit Toy.ev_start Toy.ev_resume (fun _ => true) tt (fun _ _ => tt)
-                (fun _ _ _ => None) Toy.next_record Toy.print_record (fun u => u) [] cover_array unit
-                cover_bump (fun _ _ x => x) MSet Toy.prog_block_action eq_refl 5%nat (2%nat, 0%nat) cover_empty tt []).
-  cbn zeta in H. destruct H as [_ H].
-  assert (Hne : snd (run unit Toy.U unit unit unit Toy.ev_start Toy.ev_resume (fun _ => true) tt (fun _ _ => tt)
-                (fun _ _ _ => None) Toy.next_record Toy.print_record (fun u => u) cover_array cover_bump 5
-                (fst (annotate [] MSet Toy.prog_block_action)) (mkst Toy.U cover_array (2%nat, 0%nat) cover_empty []))
-                <> OFuel unit) by (vm_compute; discriminate).
-  destruct (H Hne) as [Hu _]. vm_compute in Hu. discriminate Hu.
-Qed.
-
-(* the guard accepts {} and excludes { { } } *)
-Lemma toy_guards : guard_ok Toy.prog_empty_action = true /\ guard_ok Toy.prog_block_action = false.
-Proof. split; reflexivity. Qed.
+Lemma toy_end_blocks :
+  s_u _ _ (fst (Toy.run_toy unit (fun _ _ x => x) Toy.prog_end_blocks tt)) = (0%nat, 0%nat) /\
+  s_u _ _ (fst (Toy.run_toy cover_array cover_bump (fst (annotate [] MSet Toy.prog_end_blocks)) cover_empty)) = (0%nat, 0%nat).
+Proof. vm_compute. repeat split. Qed.
